@@ -56,11 +56,19 @@ LateCheck(e, owner) ==
     THEN {"C09r_QuietAfterClose"} ELSE {}
 
 \* born: time of the first Start; due: time since which the generation has a reason to end (-1: none yet)
-NewGen == [routines |-> 0, ended |-> FALSE, closed |-> FALSE, cause |-> FALSE, lastHb |-> -1, born |-> -1, due |-> -1]
+\* offered: time the run loop had the generation ready for Next (it is live from then on)
+NewGen == [routines |-> 0, ended |-> FALSE, closed |-> FALSE, cause |-> FALSE, lastHb |-> -1, born |-> -1, due |-> -1, offered |-> -1]
+\* C15 "heartbeats are sent at the configured interval for as long as the generation lives": a generation that has been live for
+\* longer than HbSlack without a single heartbeat reaching the coordinator (e.g. because nobody had called Next yet)
+HbSlack == 3 * cfg.heartbeatMs + 2500
+MOf(owner) == CHOOSE m \in 1 .. 20 : OwnerOf(m) = owner
+\* (key <<m, 0>> is not a generation: it remembers when member m's last handshake was completed, i.e. since when the generation
+\* that Next hands out afterwards has been live)
+Silent(m, now) == \E k \in DOMAIN gens : k[1] = m /\ k[2] # 0 /\ gens[k].offered >= 0 /\ gens[k].lastHb < 0 /\ ~gens[k].ended /\ now - gens[k].offered > HbSlack
 Due(g, now) == IF g.due < 0 /\ ~g.ended THEN [g EXCEPT !.due = now] ELSE g
 \* C15 "ends it promptly": a generation that got a reason to end more than Grace ms ago has ended
 Grace == 1500
-Overdue(m, now) == \E k \in DOMAIN gens : k[1] = m /\ gens[k].due >= 0 /\ ~gens[k].ended /\ now - gens[k].due > Grace
+Overdue(m, now) == \E k \in DOMAIN gens : k[1] = m /\ k[2] # 0 /\ gens[k].due >= 0 /\ ~gens[k].ended /\ now - gens[k].due > Grace
 Coord(e) ==
   LET owner == e.owner IN
   CASE e.api = "join" ->
@@ -79,10 +87,11 @@ Coord(e) ==
          /\ left' = Put(left, owner, Get(left, owner, {}) \cup {e.member})
          /\ UNCHANGED <<tid, cfg, stored, committed, asked, delivered, fetched, stream, pending, reading, closedAt, joined, faulted, gens, lastFail, closing, viol>>
     [] e.api = "offsetfetch" ->
+         /\ gens' = IF e.code = 0 /\ cfg.mode = "cg" THEN Put(gens, <<MOf(owner), 0>>, [NewGen EXCEPT !.offered = e.ts]) ELSE gens
          /\ fetched' = Put(fetched, owner, [k \in { TPKey(x) : x \in { e.offsets[i] : i \in DOMAIN e.offsets } } |->
                                               (CHOOSE x \in { e.offsets[i] : i \in DOMAIN e.offsets } : TPKey(x) = k)[3]])
          /\ viol' = viol \cup LateCheck(e, owner)
-         /\ UNCHANGED <<tid, cfg, stored, committed, asked, delivered, stream, pending, reading, closedAt, joined, left, faulted, gens, lastFail, closing>>
+         /\ UNCHANGED <<tid, cfg, stored, committed, asked, delivered, stream, pending, reading, closedAt, joined, left, faulted, lastFail, closing>>
     [] e.api = "offsetcommit" /\ e.code = 0 ->
          LET offs == { e.offsets[i] : i \in DOMAIN e.offsets } IN
          /\ committed' = [k \in DOMAIN committed \cup { TPKey(x) : x \in offs } |->
@@ -213,6 +222,7 @@ Upd(e) ==
     [] e.ev = "close.call" ->
          /\ closing' = closing \cup {e.m}
          /\ viol' = viol \cup (IF Overdue(e.m, e.ts) THEN {"C15_EndsOnCause"} ELSE {})
+                        \cup (IF Silent(e.m, e.ts) THEN {"C15_HeartbeatInterval"} ELSE {})
          /\ UNCHANGED <<tid, cfg, stored, committed, asked, delivered, fetched, stream, pending, reading, closedAt, joined, left, faulted, gens, lastFail>>
     [] e.ev = "close.return" ->
          /\ closedAt' = Put(closedAt, e.m, e.ts)
@@ -239,10 +249,15 @@ Upd(e) ==
          /\ gens' = [k \in DOMAIN gens |-> IF cfg.watch /\ gens[k].born >= 0 /\ e.ts - gens[k].born > 150
                                              THEN Due([gens[k] EXCEPT !.cause = TRUE], e.ts) ELSE [gens[k] EXCEPT !.cause = TRUE]]
          /\ UNCHANGED <<tid, stored, committed, asked, delivered, fetched, stream, pending, reading, closedAt, joined, left, faulted, lastFail, closing, viol>>
+    [] e.ev = "offered" ->
+         /\ gens' = Put(gens, <<e.m, e.gen>>, [Get(gens, <<e.m, e.gen>>, NewGen) EXCEPT
+                                                !.offered = IF Get(gens, <<e.m, 0>>, NewGen).offered >= 0 THEN gens[<<e.m, 0>>].offered ELSE e.ts])
+         /\ UNCHANGED <<tid, cfg, stored, committed, asked, delivered, fetched, stream, pending, reading, closedAt, joined, left, faulted, lastFail, closing, viol>>
     [] e.ev = "next.return" ->
          \* Next hands out a generation only when every tracked function of the earlier ones has returned
          /\ viol' = viol \cup (IF \E k \in DOMAIN gens : k[1] = e.m /\ k[2] < e.gen /\ gens[k].routines # 0
                                  THEN {"C15_NextWaits"} ELSE {})
+                        \cup (IF Silent(e.m, e.ts) THEN {"C15_HeartbeatInterval"} ELSE {})
          /\ UNCHANGED <<tid, cfg, stored, committed, asked, delivered, fetched, stream, pending, reading, closedAt, joined, left, faulted, gens, lastFail, closing>>
     [] e.ev = "hang" ->
          /\ viol' = viol \cup {IF e.what = "close" THEN "C09r_CloseReturns" ELSE "C09r_AppReturns"}
